@@ -3,6 +3,7 @@
 package stream
 
 import (
+	"context"
 	"time"
 
 	"github.com/tochemey/goakt/v4/actor"
@@ -15,6 +16,7 @@ func init() {
 	vRegister("vC45_fusedStep", vC45_fusedStep)
 	vRegister("vC45_batchStep", vC45_batchStep)
 	vRegister("vC45_batchHistory", vC45_batchHistory)
+	vRegister("vC45_parallel", vC45_parallel)
 }
 
 // ---- flowActor: one handler step from an arbitrary state --------------------------------------------------
@@ -691,6 +693,154 @@ func vC45_batchHistory() {
 			vAssert(o.completes == 0 && actor.VShutdowns == 0, "history: no completion before upstream completes")
 			vAssert(nout+len(a.window) == nin, "history: every received element is either emitted or still in the window")
 		}
+	}
+	vCover("end")
+}
+
+// ---- ParallelMap / OrderedParallelMap (2 workers): every run of the stage from wiring to completion ----------
+// The harness plays the upstream (<= 3 elements, delivered only against the stage's requests, then completion) and the two
+// worker actors' mailboxes; the solver chooses the order of all events (in particular in which order the workers reply).
+func vC45_parallel() {
+	const K = 7 // 3 elements + completion + 3 worker replies
+	ordered := vCase("ordered") == 1
+	vC45_c = vNondetInt("c")
+	fn := func(x int) int { return x + vC45_c }
+	var st *stage
+	if ordered {
+		st = OrderedParallelMap(2, fn).stage
+	} else {
+		st = ParallelMap(2, fn).stage
+	}
+	a := st.actorFn(st.config).(*parallelMapActor[int, int])
+	self, up, down := actor.VNewSysPID(), actor.VNewPID(), actor.VNewPID()
+	actor.VSpawnedFns, actor.VSpawnedPIDs = nil, nil
+	actor.VReset()
+	a.Receive(actor.VCtx(self, &stageWire{subID: "s", upstream: up, downstream: down}))
+	o := vS_collect(up, down, "s")
+	vAssert(len(actor.VSpawnedFns) == 2 && o.reqs == 1 && o.reqN == 2 && len(actor.VOut) == 1 && actor.VShutdowns == 0, "a wired parallel stage spawns its workers and requests one element per worker")
+	w0, w1 := actor.VSpawnedPIDs[0], actor.VSpawnedPIDs[1]
+	total := vNondetInt("len")
+	vAssume(total >= 0 && total <= 3)
+	var in [3]int
+	for i := 0; i < 3; i++ {
+		in[i] = vNondetInt("in")
+	}
+	var wq [2][3]*workerTask
+	var wh, wt [2]int
+	credit := int64(2)
+	delivered, nout, completes := 0, 0, 0
+	completed, stopped, outOfOrder := false, false, false
+	replies := 0
+	var outv [4]int
+	for k := 0; k < K; k++ {
+		if stopped {
+			break
+		}
+		canElem := delivered < total && credit > 0
+		canComplete := delivered == total && !completed
+		vAssert(canElem || canComplete || wh[0] < wt[0] || wh[1] < wt[1], "a running parallel stage is never stuck: upstream can deliver or a worker has a task")
+		ev := vChoose("event", 4)
+		actor.VReset()
+		switch ev {
+		case 0:
+			vAssume(canElem)
+			a.Receive(actor.VCtx(self, &streamElement{subID: "s", value: in[delivered], seqNo: uint64(delivered + 1)}))
+			delivered++
+			credit--
+		case 1:
+			vAssume(canComplete)
+			a.Receive(actor.VCtx(self, &streamComplete{subID: "s"}))
+			completed = true
+		default:
+			j := ev - 2
+			vAssume(wh[j] < wt[j])
+			task := wq[j][wh[j]]
+			wh[j]++
+			if task != nil && task.seqNo != uint64(replies+1) {
+				outOfOrder = true
+			}
+			replies++
+			_ = actor.VSpawnedFns[j](context.Background(), task) // the real worker function
+			vAssert(len(actor.VOut) == 1 && actor.VOut[0].To == self, "a worker replies exactly once, to the stage")
+			var res any
+			if len(actor.VOut) == 1 {
+				res = actor.VOut[0].Msg
+			}
+			actor.VReset()
+			a.Receive(actor.VCtx(self, res))
+			vCover("worker-reply")
+		}
+		vAssert(actor.VUnhandled == 0, "the stage handles every protocol message")
+		for i := 0; i < len(actor.VOut) && i < 6; i++ {
+			sm := actor.VOut[i]
+			switch m := sm.Msg.(type) {
+			case *workerTask:
+				j := -1
+				if sm.To == w0 {
+					j = 0
+				} else if sm.To == w1 {
+					j = 1
+				}
+				vAssert(j >= 0 && wt[0]-wh[0]+wt[1]-wh[1] < 2, "tasks go to the stage's own workers, at most one per worker in flight")
+				if j >= 0 && wt[j] < 3 {
+					wq[j][wt[j]] = m
+					wt[j]++
+				}
+			case *streamElement:
+				vAssert(sm.To == down && completes == 0 && nout < 3, "results go downstream, before the completion")
+				v, ok := m.value.(int)
+				vAssert(ok && m.seqNo == uint64(nout+1), "results are ints numbered consecutively")
+				if nout < 3 {
+					outv[nout] = v
+					nout++
+				}
+			case *streamComplete:
+				vAssert(sm.To == down, "completion goes downstream")
+				completes++
+			case *streamRequest:
+				vAssert(sm.To == up && m.n >= 1, "requests go upstream")
+				credit += m.n
+			default:
+				vAssert(false, "a parallel stage sends nothing else in a failure-free run")
+			}
+		}
+		if actor.VShutdowns > 0 {
+			stopped = true
+		}
+		vAssert(stopped == (completes > 0) && completes <= 1, "the stage stops exactly when it has completed downstream, once")
+	}
+	vAssert(stopped, "every run ends: after all elements, the completion and all worker replies the stage has completed")
+	vAssert(completed && nout == total && delivered == total, "at completion every input element has produced exactly one output")
+	if ordered {
+		for i := 0; i < 3; i++ {
+			if i < total && i < nout {
+				vAssert(outv[i] == in[i]+vC45_c, "OrderedParallelMap: outputs are fn(input) in input order whatever the order of the worker replies")
+			}
+		}
+	} else {
+		for i := 0; i < 3; i++ {
+			if i < total {
+				ci, co := 0, 0
+				for j := 0; j < 3; j++ {
+					if j < total && in[j] == in[i] {
+						ci++
+					}
+					if j < nout && outv[j] == in[i]+vC45_c {
+						co++
+					}
+				}
+				vAssert(ci == co, "ParallelMap: the outputs are the multiset of fn(input)")
+			}
+		}
+	}
+	if !ordered && total == 3 && (outv[0] != in[0]+vC45_c) {
+		vCover("reordered-output")
+	}
+	if outOfOrder {
+		vCover("replies-out-of-order")
+	}
+	if total == 3 {
+		vCover("three-elements")
 	}
 	vCover("end")
 }
